@@ -106,6 +106,29 @@ func c15lSeq(variant string, ops []string) func(x *sched.Exec) {
 			}
 			return -1 // not observable
 		}
+		// effects that may land at any time after the call that caused them
+		async := func(when string) {
+			for _, b := range lateBodies {
+				if exp.bodies[b] != 0 {
+					x.Fail("C15|telemetry-after-shutdown|logs", "the record %q, emitted after LoggerProvider.Shutdown had returned nil, was exported later (%s)", b, when)
+				}
+			}
+			if exp.afterSD > 0 {
+				class := ""
+				if shutFailed {
+					// the provider's Shutdown ran out of time: the batch processor shut the exporter down while
+					// an export was still queued in its buffer
+					class = "|after a Shutdown that was cut short by its context"
+					if !strings.HasPrefix(variant, "batch") {
+						class = "|" + variant + class
+					}
+				}
+				x.Fail("C15|export-after-exporter-shutdown|logs"+class, "exporter received records after its Shutdown (%s)", when)
+			}
+			if rec.afterSD > 0 {
+				x.Fail("C15|processor-called-after-its-shutdown|logs", "processor OnEmit called after its Shutdown (%s)", when)
+			}
+		}
 		for i, op := range ops {
 			e0, x0 := rec.emits, exp.exported
 			switch op {
@@ -176,26 +199,15 @@ func c15lSeq(variant string, ops []string) func(x *sched.Exec) {
 					x.Fail("C15|batch-processor-lost-records-at-shutdown", "Shutdown returned nil; batch processor exported %d of %d records emitted before (%s)", exp.exported, emittedLive, where(i))
 				}
 			}
-			for _, b := range lateBodies {
-				if exp.bodies[b] != 0 {
-					x.Fail("C15|telemetry-after-shutdown|logs", "the record %q, emitted after LoggerProvider.Shutdown had returned nil, was exported later (%s)", b, where(i))
-				}
+			async(where(i))
+		}
+		// what the background goroutines (batch poll loop, export goroutine) still do once the caller
+		// is done: let them run until they have nothing left, then look again
+		if len(ops) > 0 {
+			for k := 0; k < 8; k++ {
+				sched.SpinYield()
 			}
-			if exp.afterSD > 0 {
-				class := ""
-				if shutFailed {
-					// the provider's Shutdown ran out of time: the batch processor shut the exporter down while
-					// an export was still queued in its buffer
-					class = "|after a Shutdown that was cut short by its context"
-					if !strings.HasPrefix(variant, "batch") {
-						class = "|" + variant + class
-					}
-				}
-				x.Fail("C15|export-after-exporter-shutdown|logs"+class, "exporter received records after its Shutdown (%s)", where(i))
-			}
-			if rec.afterSD > 0 {
-				x.Fail("C15|processor-called-after-its-shutdown|logs", "processor OnEmit called after its Shutdown (%s)", where(i))
-			}
+			async(fmt.Sprintf("after %v, once the background goroutines have come to rest", ops))
 		}
 		_ = lp.Shutdown(context.Background())
 	}
